@@ -302,10 +302,82 @@ def r45_nothing_swallows(ctx):
                 continue
             ctx.bad(R, node, f or m.name, 'nothing between Election.count() and the driver swallows a KeyboardInterrupt',
                     '%s can swallow the interrupt' % why)
+    # code that runs WHILE the interrupt propagates (finally bodies, handlers that re-raise) must not add to the record or change a
+    # status: the interrupted record has to be a prefix of the full one
+    nfin = 0
+    for m in repo.modules.values():
+        if not m.name.startswith('droop'):
+            continue
+        for t in ast.walk(m.tree):
+            if not isinstance(t, ast.Try):
+                continue
+            bodies = [('finally', t.finalbody)] if t.finalbody else []
+            for h in t.handlers:
+                ht = unparse(h.type) if h.type is not None else ''
+                if h.type is None or 'BaseException' in ht or 'KeyboardInterrupt' in ht:
+                    bodies.append(('except %s' % (ht or '<bare>'), h.body))
+            for label, body in bodies:
+                nfin += 1
+                f = repo.enclosing_func(t)
+                rec_calls = [c for st in body for c in ast.walk(st) if isinstance(c, ast.Call) and isinstance(c.func, ast.Attribute)
+                             and c.func.attr in ('logAction', 'log', 'newRound', 'action', 'elect', 'defeat', 'unpend', 'unelect', 'prog')]
+                ctx.check(not rec_calls, R, t, f or m.name, 'nothing is recorded and no status changes while an interrupt propagates',
+                          '`%s` body records nothing' % label,
+                          '`%s` body calls %s: when a KeyboardInterrupt passes through, the interrupted record gets an action (or status) '
+                          'the completed count never has at that point' % (label, ', '.join(sorted(set('.' + c.func.attr for c in rec_calls)))))
     ctx.ok(R, None, 'package', 'nothing between Election.count() and the driver swallows a KeyboardInterrupt',
            '%d exception handlers in %d modules examined: none catches BaseException/KeyboardInterrupt or is bare; no finally '
            'block returns; positive fixture fired (%d constructs)' % (nh, len(repo.modules), len(fx)))
     ctx.floor(R, 'exception handlers', nh, 15)
+
+
+def _files_written_before_read(ctx, R, main):
+    """a file the driver reads back after the count (pstats.Stats(<name>)) has been written on EVERY path that reaches the read -
+    including the path on which a KeyboardInterrupt leaves the try body.  cProfile.runctx / cProfile.run write their stats
+    file in a `finally` (they count as written even when the profiled call is interrupted); <profile>.dump_stats(name) writes
+    only if control reaches it."""
+    from ..pathfacts import Atoms, search, describe
+    from ..cfg import binds_name, may_raise
+    cfg = cfg_of(main)
+    atoms = Atoms(ctx, main)
+    readers = []
+    for x in cfg.stmt_nodes():
+        for c in calls_at(x):
+            fn = unparse(c.func)
+            if fn in ('pstats.Stats', 'Stats', 'open') and c.args and isinstance(c.args[0], ast.Name):
+                if fn == 'open' and any(const_str(a) and ('w' in const_str(a) or 'a' in const_str(a)) for a in c.args[1:2]):
+                    continue
+                readers.append((x, c.args[0].id, c))
+    for rnode, fname, call in readers:
+        always, normal = set(), set()
+        for x in cfg.stmt_nodes():
+            for c in calls_at(x):
+                fn = unparse(c.func)
+                args = list(c.args) + [k.value for k in c.keywords]
+                names = [a.id for a in args if isinstance(a, ast.Name)]
+                if fn in ('cProfile.runctx', 'cProfile.run', 'profile.runctx', 'profile.run') and fname in names:
+                    always.add(x)
+                elif isinstance(c.func, ast.Attribute) and c.func.attr == 'dump_stats' and fname in names:
+                    normal.add(x)
+
+        def on_node(node, facts):
+            out = facts
+            for k in list(facts):
+                nm = k.split(':', 1)[1] if ':' in k else None
+                if nm and binds_name(node, nm):
+                    out = {a: b for a, b in out.items() if a != k}
+            return out
+
+        def cut_edge(node, lab, facts):
+            # an interrupt is taken to arrive while a call runs (the count is one): statements that only move names around do not raise
+            if lab == 'exc':
+                return not may_raise(node)
+            return node in normal
+        p = search(cfg, cfg.entry, {}, rnode, always, atoms, cut_edge=cut_edge, on_node=on_node, follow_exc=True)
+        ctx.check(p is None, R, call, main, 'a file read back after the count has been written on every path, also when the count was interrupted',
+                  '`%s` is written by %d statement(s) that every path to the read passes (cProfile.runctx writes in a finally)' % (fname, len(always) + len(normal)),
+                  'the read of `%s` can be reached without the file having been written (an interrupt skips the write): the driver dies with '
+                  'FileNotFoundError instead of returning the renderings: %s' % (fname, describe(p) if p else ''))
 
 
 def r46_interrupt_plumbing(ctx):
@@ -363,6 +435,7 @@ def r46_interrupt_plumbing(ctx):
                   'the interrupt flag reaches E.%s() after the count' % m,
                   'E.%s(%s) is called after the try statement with the flag' % (m, flag),
                   'E.%s() is not called with the interrupt flag' % m)
+    _files_written_before_read(ctx, R, main)
     # the three wrappers: identical once-only marker logic
     el = repo.cls('droop.election.Election')
     shapes = {}
